@@ -2,7 +2,7 @@ INIT Init
 NEXT Next
 CONSTANTS
   Profile = "corr"
-  MaxLines = 5
+  MaxLines = 4
   MaxIfs = 2
   MaxDepth = 2
   MaxAtoms = 4
